@@ -524,9 +524,9 @@ Section Text.
   Qed.
 
   Lemma render_head_ok p : starts_ok p ->
-    (match p with c :: _ => is_cont c | [] => false end) || is_cont eq_ = false.
+    (match p with c :: _ => is_cont c | [] => false end) = false.
   Proof.
-    intros Hp. replace (is_cont eq_) with false by reflexivity. rewrite orb_false_r.
+    intros Hp.
     destruct p as [|c r]; [reflexivity|exact Hp].
   Qed.
 
@@ -554,42 +554,42 @@ Section Text.
     - intros _. vm_compute. reflexivity.
     - intros (Hv & _). unfold classify. cbn [app]. replace (t_rtpmap ++ colon :: p) with (t_rtpmap ++ colon :: p) by reflexivity.
       change ("a"%byte :: eq_ :: t_rtpmap ++ colon :: p) with ("a"%byte :: eq_ :: (t_rtpmap ++ colon :: p)).
-      cbv beta iota. replace (match t_rtpmap ++ colon :: p with c :: _ => is_cont c | [] => false end || is_cont eq_) with false by reflexivity.
+      cbv beta iota. replace (match t_rtpmap ++ colon :: p with c :: _ => is_cont c | [] => false end) with false by reflexivity.
       cbn [Byte.eqb Byte.to_bits Bool.eqb andb]. rewrite classify_attr_known; [reflexivity|vm_compute; tauto|discriminate|exact Hv].
     - intros (Hv & _). unfold classify.
-      replace (match t_fmtp ++ colon :: p with c :: _ => is_cont c | [] => false end || is_cont eq_) with false by reflexivity.
+      replace (match t_fmtp ++ colon :: p with c :: _ => is_cont c | [] => false end) with false by reflexivity.
       cbn [Byte.eqb Byte.to_bits Bool.eqb andb]. rewrite classify_attr_known; [reflexivity|vm_compute; tauto|discriminate|exact Hv].
     - intros (Hv & _). unfold classify.
-      replace (match t_rtcp ++ colon :: p with c :: _ => is_cont c | [] => false end || is_cont eq_) with false by reflexivity.
+      replace (match t_rtcp ++ colon :: p with c :: _ => is_cont c | [] => false end) with false by reflexivity.
       cbn [Byte.eqb Byte.to_bits Bool.eqb andb]. rewrite classify_attr_known; [reflexivity|vm_compute; tauto|discriminate|exact Hv].
     - intros (Hv & _). unfold classify.
-      replace (match t_iceoptions ++ colon :: p with c :: _ => is_cont c | [] => false end || is_cont eq_) with false by reflexivity.
+      replace (match t_iceoptions ++ colon :: p with c :: _ => is_cont c | [] => false end) with false by reflexivity.
       cbn [Byte.eqb Byte.to_bits Bool.eqb andb]. rewrite classify_attr_known; [reflexivity|vm_compute; tauto|discriminate|exact Hv].
     - intros (Hv & _). unfold classify.
-      replace (match t_iceufrag ++ colon :: p with c :: _ => is_cont c | [] => false end || is_cont eq_) with false by reflexivity.
+      replace (match t_iceufrag ++ colon :: p with c :: _ => is_cont c | [] => false end) with false by reflexivity.
       cbn [Byte.eqb Byte.to_bits Bool.eqb andb]. rewrite classify_attr_known; [reflexivity|vm_compute; tauto|discriminate|exact Hv].
     - intros (Hv & _). unfold classify.
-      replace (match t_icepwd ++ colon :: p with c :: _ => is_cont c | [] => false end || is_cont eq_) with false by reflexivity.
+      replace (match t_icepwd ++ colon :: p with c :: _ => is_cont c | [] => false end) with false by reflexivity.
       cbn [Byte.eqb Byte.to_bits Bool.eqb andb]. rewrite classify_attr_known; [reflexivity|vm_compute; tauto|discriminate|exact Hv].
     - intros (Hv & _). unfold classify.
-      replace (match t_candidate ++ colon :: p with c :: _ => is_cont c | [] => false end || is_cont eq_) with false by reflexivity.
+      replace (match t_candidate ++ colon :: p with c :: _ => is_cont c | [] => false end) with false by reflexivity.
       cbn [Byte.eqb Byte.to_bits Bool.eqb andb]. rewrite classify_attr_known; [reflexivity|vm_compute; tauto|discriminate|exact Hv].
     - intros (Hv & _). unfold classify.
-      replace (match t_crypto ++ colon :: p with c :: _ => is_cont c | [] => false end || is_cont eq_) with false by reflexivity.
+      replace (match t_crypto ++ colon :: p with c :: _ => is_cont c | [] => false end) with false by reflexivity.
       cbn [Byte.eqb Byte.to_bits Bool.eqb andb]. rewrite classify_attr_known; [reflexivity|vm_compute; tauto|discriminate|exact Hv].
     - intros (Hnc & _ & Hs & Hval). destruct a as [name value]. cbn [a_name a_value] in *. unfold classify.
       destruct value as [v|].
       + destruct Hval as [_ Hk].
-        assert (Hhead : (match name ++ colon :: v with c :: _ => is_cont c | [] => false end || is_cont eq_) = false).
-        { replace (is_cont eq_) with false by reflexivity. rewrite orb_false_r.
+        assert (Hhead : (match name ++ colon :: v with c :: _ => is_cont c | [] => false end) = false).
+        {
           destruct name as [|c r]; [reflexivity|exact Hs]. }
         rewrite Hhead. cbn [Byte.eqb Byte.to_bits Bool.eqb andb]. unfold classify_attr. rewrite split_once_app by exact Hnc.
         unfold known_value_names in Hk.
         repeat match goal with H : Forall _ (_ :: _) |- _ => inversion H; clear H; subst end.
         repeat match goal with H : bytes_eqb name _ = false |- _ => rewrite H; clear H end. reflexivity.
       + destruct Hval as (Hd & Hl & He).
-        assert (Hhead : (match name ++ [] with c :: _ => is_cont c | [] => false end || is_cont eq_) = false).
-        { replace (is_cont eq_) with false by reflexivity. rewrite orb_false_r. rewrite app_nil_r.
+        assert (Hhead : (match name ++ [] with c :: _ => is_cont c | [] => false end) = false).
+        { rewrite app_nil_r.
           destruct name as [|c r]; [reflexivity|exact Hs]. }
         rewrite Hhead. cbn [Byte.eqb Byte.to_bits Bool.eqb andb]. unfold classify_attr. rewrite app_nil_r.
         rewrite split_once_none by exact Hnc. now rewrite Hd, Hl, He.
